@@ -29,6 +29,8 @@ Bad == <<
   [n |-> "unknown-directive",     t |-> ".unknowndir 5"],
   [n |-> "stray-paren",           t |-> "(a0)"],
   [n |-> "colon-alone",           t |-> ": x"],
+  [n |-> "missing-include",       t |-> ".include \"nofile.s\""],
+  [n |-> "missing-include-then-comment", t |-> ".include \"nofile.s\" # gone"],
   [n |-> "none",                  t |-> "mv t2, a0"] >>
 Endings == {"lf", "crlf", "lf-nofinal"}
 
